@@ -56,8 +56,28 @@ type Case struct {
 	Sched   []int       `json:"sched"`
 	Free    bool        `json:"free"`
 	Items   []int64     `json:"items"` // kind "wp": per item, does the mapper / walk function panic
+	Src     Src         `json:"src"`   // kind "wp", fx objs: how the stream under the stage is built
+	Sink    int         `json:"sink"`  // fx: 0 Done(), 1 ForEach(noop), 2 ForAll(drain)
 	Inst    []int       `json:"inst"`  // instance used by each thread (absent: all use instance 0)
 	Ns      []int       `json:"ns"`    // capacity of each instance (absent: [n])
+}
+
+// Src: the source of an fx stage and its state AT THE MOMENT THE STAGE IS ATTACHED.
+//   from   fx.From(generator)            (unbuffered, the default)
+//   just   fx.Just(items...)             (buffered with all items, closed)
+//   range  fx.Range(caller's channel)    cap Cap, Pre items already in it at attach time, Closed
+//                                        (only when all items are in): closed before the attach
+//   buffer fx.Range(unbuffered).Buffer(Cap), Pre items in the buffer at attach time (exact when
+//          Pre == Cap: the Buffer goroutine then holds item Pre and is blocked)
+//   concat fx.Just(first half).Concat(fx.Range(full buffered channel with the rest))
+//   chain  fx.From(generator).Walk(identity, WithWorkers(n+1)) in front of the stage
+// For range / buffer the remaining items are delivered by a producer started right after the attach.
+// concat and chain do not preserve the order of the items: workers are numbered by arrival.
+type Src struct {
+	Shape  string `json:"shape"`
+	Cap    int    `json:"cap"`
+	Pre    int    `json:"pre"`
+	Closed bool   `json:"closed"`
 }
 
 func (c Case) caps() []int {
@@ -524,11 +544,6 @@ func runWP(c Case, ctl *sched.Ctl, mon *monitor, wg *sync.WaitGroup) {
 			source <- i
 		}
 	}
-	fxgen := func(source chan<- any) {
-		for i := range c.Items {
-			source <- i
-		}
-	}
 	errStop := fmt.Errorf("stop")
 	mapper := func(item int, w mr.Writer[int], cancel func(error)) {
 		fn(item)
@@ -621,26 +636,128 @@ func runWP(c Case, ctl *sched.Ctl, mon *monitor, wg *sync.WaitGroup) {
 					fns[i] = func() { fn(i) }
 				}
 				mr.FinishVoid(fns...)
-			case "fx":
-				fx.From(fxgen).Walk(func(item any, pipe chan<- any) { fn(item.(int)); pipe <- item }, fx.WithWorkers(c.N)).Done()
-			case "fxdef":
-				fx.From(fxgen).Walk(func(item any, pipe chan<- any) { fn(item.(int)) }).Done()
-			case "fxu":
-				fx.From(fxgen).Walk(func(item any, pipe chan<- any) { fn(item.(int)); pipe <- item }, fx.UnlimitedWorkers()).Done()
-			case "fxuw": // UnlimitedWorkers is not undone by a worker count, in either order
-				fx.From(fxgen).Walk(func(item any, pipe chan<- any) { fn(item.(int)) }, fx.WithWorkers(c.N), fx.UnlimitedWorkers()).Done()
-			case "fxwu":
-				fx.From(fxgen).Walk(func(item any, pipe chan<- any) { fn(item.(int)) }, fx.UnlimitedWorkers(), fx.WithWorkers(c.N)).Done()
-			case "fxmap":
-				fx.From(fxgen).Map(func(item any) any { fn(item.(int)); return item }, fx.WithWorkers(c.N)).Done()
-			case "fxfilter":
-				fx.From(fxgen).Filter(func(item any) bool { fn(item.(int)); return item.(int)%2 == 0 }, fx.WithWorkers(c.N)).Done()
-			default: // fxp
-				fx.From(fxgen).Parallel(func(item any) { fn(item.(int)) }, fx.WithWorkers(c.N))
+			default: // fx objs
+				runFx(c, fn)
 			}
 		}()
 		ctl.Log(0, "ret", 0, r)
 	})
+}
+
+// fx: source x stage x sink.  The stage is attached while the source is in the chosen state;
+// only then the rest of the items is delivered.
+func runFx(c Case, fn func(int)) {
+	k := len(c.Items)
+	var arrival int32
+	byArrival := c.Src.Shape == "concat" || c.Src.Shape == "chain"
+	call := func(item any) {
+		if byArrival {
+			fn(int(atomic.AddInt32(&arrival, 1)) - 1)
+		} else {
+			fn(item.(int))
+		}
+	}
+	feed := func(ch chan<- any, from int, closeIt bool) func() {
+		return func() {
+			go func() {
+				for i := from; i < k; i++ {
+					ch <- i
+				}
+				if closeIt {
+					close(ch)
+				}
+			}()
+		}
+	}
+	var st fx.Stream
+	after := func() {}
+	switch c.Src.Shape {
+	case "just":
+		items := make([]any, k)
+		for i := range items {
+			items[i] = i
+		}
+		st = fx.Just(items...)
+	case "range":
+		ch := make(chan any, c.Src.Cap)
+		pre := min(c.Src.Pre, c.Src.Cap, k)
+		for i := 0; i < pre; i++ {
+			ch <- i
+		}
+		if c.Src.Closed && pre == k {
+			close(ch)
+		} else {
+			after = feed(ch, pre, true)
+		}
+		st = fx.Range(ch)
+	case "buffer":
+		ch := make(chan any)
+		st = fx.Range(ch).Buffer(c.Src.Cap)
+		m := min(min(c.Src.Pre, max(c.Src.Cap, 0))+1, k)
+		for i := 0; i < m; i++ {
+			ch <- i
+		}
+		after = feed(ch, m, true)
+	case "concat":
+		h := k / 2
+		first := make([]any, h)
+		for i := range first {
+			first[i] = i
+		}
+		ch := make(chan any, max(k-h, 1))
+		for i := h; i < k; i++ {
+			ch <- i
+		}
+		close(ch)
+		st = fx.Just(first...).Concat(fx.Range(ch))
+	case "chain":
+		st = fx.From(func(source chan<- any) {
+			for i := 0; i < k; i++ {
+				source <- i
+			}
+		}).Walk(func(item any, pipe chan<- any) { pipe <- item }, fx.WithWorkers(c.N+1))
+	default:
+		st = fx.From(func(source chan<- any) {
+			for i := 0; i < k; i++ {
+				source <- i
+			}
+		})
+	}
+	walk := func(item any, pipe chan<- any) { call(item); pipe <- item }
+	quiet := func(item any, pipe chan<- any) { call(item) }
+	var out fx.Stream
+	switch c.Obj {
+	case "fx":
+		out = st.Walk(walk, fx.WithWorkers(c.N))
+	case "fxdef":
+		out = st.Walk(quiet)
+	case "fxu":
+		out = st.Walk(walk, fx.UnlimitedWorkers())
+	case "fxuw": // UnlimitedWorkers is not undone by a worker count, in either order
+		out = st.Walk(quiet, fx.WithWorkers(c.N), fx.UnlimitedWorkers())
+	case "fxwu":
+		out = st.Walk(quiet, fx.UnlimitedWorkers(), fx.WithWorkers(c.N))
+	case "fxmap":
+		out = st.Map(func(item any) any { call(item); return item }, fx.WithWorkers(c.N))
+	case "fxfilter":
+		out = st.Filter(func(item any) bool { call(item); return true }, fx.WithWorkers(c.N))
+	default: // fxp: Parallel attaches and drains in one call
+		after()
+		st.Parallel(func(item any) { call(item) }, fx.WithWorkers(c.N))
+		return
+	}
+	after()
+	switch c.Sink {
+	case 1:
+		out.ForEach(func(any) {})
+	case 2:
+		out.ForAll(func(pipe <-chan any) {
+			for range pipe {
+			}
+		})
+	default:
+		out.Done()
+	}
 }
 
 // threading.WorkerGroup: actor 0 calls Start, actor 1+k is the k-th invocation of job
@@ -800,6 +917,20 @@ func runMrFx(c Case, mon *monitor) {
 	fx.From(fxgen).Parallel(func(item any) { work("fx.Parallel", item.(int)) }, fo)
 	fx.From(fxgen).Map(func(item any) any { work("fx.Map", item.(int)); return item }, fo).
 		Filter(func(item any) bool { work("fx.Filter", item.(int)); return true }, fo).Done()
+	// an open buffered source that is exactly full (c.N items) when the stage is attached
+	full := make(chan any, c.N)
+	for i := 0; i < c.N; i++ {
+		full <- i
+	}
+	stage := fx.Range(full).Walk(func(item any, pipe chan<- any) { work("fx.Walk(full buffer)", item.(int)) }, fo)
+	go func() {
+		for i := c.N; i < items; i++ {
+			full <- i
+		}
+		close(full)
+	}()
+	stage.Done()
+	fx.From(fxgen).Buffer(c.N).Walk(func(item any, pipe chan<- any) { work("fx.Buffer.Walk", item.(int)) }, fo).Done()
 	threading.NewWorkerGroup(func() { work("WorkerGroup", 1) }, c.N).Start()
 }
 
